@@ -62,6 +62,7 @@ def make_env(em):
         'C1': {},
         'C2': {},
         'G': copy.deepcopy(GLOBAL_CFG),
+        'SO': em.Config({'type': 'stylesheet', 'cache': {}}),
     }
 
 
@@ -100,6 +101,8 @@ OPS = [
     ('css_user_pt', lambda em, e: css(em, e, 'gp', 'C2', {'stylesheet.intUnit': 'pt'}, USER_SNIPPETS)),
     ('css_nouser', lambda em, e: css(em, e, 'mten+gp', 'C2')),
     ('css_nocache', lambda em, e: css(em, e, 'zom+p10+mten')),
+    ('so_zom_p10', lambda em, e: em.expand('zom+p10+trf-s', e['SO'])),
+    ('so_args', lambda em, e: em.expand('trf-s(3)+m1.5', e['SO'])),
     ('css_fn_args', lambda em, e: css(em, e, 'trf-s(2)+trf:translate(10, 20)', 'C1')),
     ('css_fn', lambda em, e: css(em, e, 'trf-s+trf:trs+lg(to right, #0)', 'C1', {'output.field': FIELD})),
     ('css_section', lambda em, e: css(em, e, '@kf+m10', 'C1', None, None, '@@section')),
@@ -197,12 +200,17 @@ def module_sizes():
     return sizes
 
 
-def live_emmet_objects(env):
-    "number of live instances of emmet classes that are not reachable from caller-owned objects or module globals"
+def live_emmet_objects(env, frozen=False):
+    """number of live instances of emmet classes that are not reachable from caller-owned objects or module globals.
+    frozen=True: everything alive when the library was imported has been gc.freeze()d and is not scanned again, so only
+    objects created since are counted and only caller-owned objects need to be traversed (objects stored into module-level
+    containers show up in module_state())."""
     gc.collect()
     reach = set()
     stack = list(env.values())
     for name, m in sys.modules.items():
+        if frozen:
+            break
         if name == 'emmet' or name.startswith('emmet.'):
             stack.append(vars(m))
     while stack:
@@ -236,7 +244,7 @@ def canon(em, env, leak):
         ('A', cfg_canon(env['A'])), ('T', cfg_canon(env['T'])), ('B', cfg_canon(env['B'])),
         ('O', cfg_canon(o.user_config), o.type, o.syntax, repr(o.context), fp(o.snippets), fp(o.variables),
          tuple(sorted((k, repr(v)) for k, v in o.options.items() if not callable(v)))),
-        ('C1', fp(env['C1'])), ('C2', fp(env['C2'])), ('G', repr(env['G'])),
+        ('C1', fp(env['C1'])), ('C2', fp(env['C2'])), ('G', repr(env['G'])), ('SO', fp(env['SO'].cache)),
         ('modules', module_state()),
         ('leak', leak > 0),
     )
@@ -247,6 +255,18 @@ def replay(hist):
     env = make_env(em)
     res = [call(i, em, env) for i in hist]
     return em, env, res
+
+
+def replay_counting(hist):
+    "like replay(), and counts the emmet objects that the calls left alive (everything older is frozen out of the scan)"
+    gc.unfreeze()
+    em = fresh()
+    env = make_env(em)
+    gc.collect()
+    gc.freeze()
+    res = [call(i, em, env) for i in hist]
+    leak = live_emmet_objects(env, True)
+    return em, env, res, leak
 
 
 _FRESH = None
@@ -285,8 +305,7 @@ def initial_config_ok(env):
 def examine(hist):
     """replays hist; -> (canonical state, list of violations for the last transition)"""
     FR = fresh_results()
-    em, env, res = replay(hist)
-    leak = live_emmet_objects(env) - _BASE
+    em, env, res, leak = replay_counting(hist)
     bad = []
     if hist:
         i = hist[-1]
@@ -315,6 +334,90 @@ def leak_probe(i):
         if s[0] < s[1] < s[2] < s[3]:
             bad.append(('leak:module-container-grows:%s' % '.'.join(str(x) for x in k), dict(op=OPNAMES[i], sizes=s)))
     return bad
+
+
+# ---------------------------------------------------------------- fork-based exploration (live states are never copied, they are forked)
+def fork_call(fn):
+    "runs fn() in a forked child (which inherits the live library state) and returns its pickled result"
+    import os, pickle
+    r, w = os.pipe()
+    pid = os.fork()
+    if pid == 0:
+        code = 0
+        try:
+            os.close(r)
+            try:
+                data = pickle.dumps(('ok', fn()))
+            except BaseException as e:          # report harness errors to the parent
+                import traceback
+                data = pickle.dumps(('err', traceback.format_exc()))
+            with os.fdopen(w, 'wb') as f:
+                f.write(data)
+        finally:
+            os._exit(code)
+    os.close(w)
+    with os.fdopen(r, 'rb') as f:
+        data = f.read()
+    os.waitpid(pid, 0)
+    kind, val = pickle.loads(data)
+    if kind == 'err':
+        raise RuntimeError('forked explorer failed:\n' + val)
+    return val
+
+
+def fork_map(fns, width=6):
+    "like [fork_call(f) for f in fns] with up to `width` children running at the same time; results in order"
+    import os, pickle
+    results = [None] * len(fns)
+    running = []
+
+    def collect():
+        idx, pid, fd = running.pop(0)
+        with os.fdopen(fd, 'rb') as f:
+            data = f.read()
+        os.waitpid(pid, 0)
+        kind, val = pickle.loads(data)
+        if kind == 'err':
+            raise RuntimeError('forked explorer failed:\n' + val)
+        results[idx] = val
+    for idx, fn in enumerate(fns):
+        if len(running) >= width:
+            collect()
+        r, w = os.pipe()
+        pid = os.fork()
+        if pid == 0:
+            try:
+                os.close(r)
+                for _i, _p, fd in running:
+                    os.close(fd)
+                try:
+                    data = pickle.dumps(('ok', fn()))
+                except BaseException:
+                    import traceback
+                    data = pickle.dumps(('err', traceback.format_exc()))
+                with os.fdopen(w, 'wb') as f:
+                    f.write(data)
+            finally:
+                os._exit(0)
+        os.close(w)
+        running.append((idx, pid, r))
+    while running:
+        collect()
+    return results
+
+
+def live_step(em, env, i, base):
+    "applies operation i to the live state; -> (canonical state hash, result, changed caller configs, leak)"
+    res = call(i, em, env)
+    leak = live_emmet_objects(env, True) - base
+    return hash(canon(em, env, leak)), res, initial_config_ok(env), leak
+
+
+def from_state(em, env, hist, base):
+    "runs in a forked child of the fresh state: replays hist on the live objects, then tries every operation in a grandchild"
+    for i in hist:
+        call(i, em, env)
+    return fork_map([(lambda i=i: live_step(em, env, i, base)) for i in range(len(OPS))], 4)
 
 
 def shards(tier):
@@ -359,9 +462,60 @@ def run_shard(shard, ctx, tier):
     results_of = {}
     frontier = collections.deque()
     if shard.get('globalbfs'):
-        first = None
-        h0 = []
-        depth = BOUNDS[tier]['global_depth']
+        # one breadth-first search from the fresh state over live states: the fresh state is held by this process and never
+        # touched; a state is re-entered by forking and replaying its history on the live objects, every operation runs in a
+        # grandchild.  Every (state, operation) transition is executed exactly once.
+        em = fresh()
+        env = make_env(em)
+        gc.collect()
+        gc.freeze()            # objects alive now are not rescanned by the leak counter
+        base = live_emmet_objects(env, True)
+        k0 = hash(canon(em, env, 0))
+        seen_h = {k0: []}
+        ctx.stateset.add(k0)
+        frontier = collections.deque([[]])
+        bound_hit = False
+        maxd = 0
+        ntrans = 0
+        while frontier:
+            level = list(frontier)
+            frontier.clear()
+            ctx.tick(level[0])
+            # all states of one BFS level are expanded concurrently (each in its own forked child of the fresh state)
+            all_steps = fork_map([(lambda h=h: from_state(em, env, h, base)) for h in level], 4)
+            for hist, steps in zip(level, all_steps):
+              for i, (hk, res, changed, leak) in enumerate(steps):
+                  h = hist + [i]
+                  names = [OPNAMES[j] for j in h]
+                  ntrans += 1
+                  ctx.transitions += 1
+                  ctx.evals += 1
+                  ctx.validated += 1
+                  if len(h) >= 2:
+                      ctx.nontrivial += 1
+                  maxd = max(maxd, len(h))
+                  ctx.outcome((i, res == FR[i]))
+                  if res != FR[i]:
+                      ctx.violation('history-dependent-result:%s' % names[-1], dict(history=names), dict(history=names, got=res, fresh=FR[i]))
+                  for name in changed:
+                      ctx.violation('caller-config-changed:%s' % name, dict(history=names), dict(history=names))
+                  if leak > 0:
+                      ctx.extra['transitions_with_live_garbage'] += 1
+                  if hk not in seen_h:
+                      seen_h[hk] = h
+                      ctx.stateset.add(hk)
+                      if len(h) < BOUNDS[tier]['global_depth']:
+                          frontier.append(h)
+                      else:
+                          bound_hit = True
+        gc.unfreeze()
+        ctx.extra['global_search_stopped_at_depth_bound' if bound_hit else 'global_search_fixpoint_reached'] += 1
+        ctx.extra['global_search_max_depth'] = maxd
+        ctx.sample(dict(search='global BFS over forked live states', states=len(seen_h), transitions=ntrans,
+                        deepest_new_state=[OPNAMES[j] for j in list(seen_h.values())[-1]]))
+        return
+    if False:
+        pass
     else:
         first = shard['first']
         h0 = [first]
